@@ -408,6 +408,12 @@ class _LebCut:
         self.facts = []        # what the callee's contract guarantees
 
     def __call__(self, output, i):
+        # behave like the real function on arguments it cannot work with (the real WriteInteger(output, i) calls output.write(...) and
+        # does integer arithmetic on i): a caller that passes them the wrong way round fails in the real code, so it fails here
+        if not hasattr(output, "write"):
+            raise AttributeError(f"'{type(output).__name__}' object has no attribute 'write'")
+        if isinstance(i, (leb.ChunkIO, bytes, str, list)) or hasattr(i, "write"):
+            raise TypeError(f"unsupported operand type for the integer argument: '{type(i).__name__}'")
         t = term(i)
         self.requires.append(z3.And(t >= 0, t < 2 ** 32))
         self.facts.append(z3.And(leb.uleblen(t) >= 1, leb.uleblen(t) <= 5))
